@@ -231,6 +231,28 @@ def recon_checks(ctx, sp, mr, rng):
             if lam == 0 and np.linalg.norm(x - x_true) > 1e-3 * np.linalg.norm(x_true):
                 bad.setdefault("senserecon-consistent", ("SenseRecon does not reproduce the image for consistent fully determined data",
                                                          {"kind": "oracle", "ishape": ish, "coils": nc}))
+        # explicit non-binary weights (density compensation / soft gating): the caller's arrays are left alone and a
+        # second reconstruction from the same arrays gives the same image, which minimises the weighted objective
+        w = np.array([rng.uniform(0.2, 2.0) for _ in range(int(np.prod(ish)))]).reshape(ish)
+        k0, w0, m0 = ksp.copy(), w.copy(), mps.copy()
+        ctx.count("recon:SenseRecon-weighted", key=(r, "w"), sample={"ishape": ish, "coils": nc, "weights": "non-binary"})
+        try:
+            xs = [mr.app.SenseRecon(ksp, mps, lamda=0.05, weights=w, show_pbar=False, **kw).run()
+                  for kw in ({"max_iter": 200}, {"coil_batch_size": 1, "max_iter": 200}, {"solver": "GradientMethod", "max_iter": 3000})]
+            if not (np.array_equal(ksp, k0) and np.array_equal(w, w0) and np.array_equal(mps, m0)):
+                bad.setdefault("recon-mutates-input", ("SenseRecon modified the k-space / weights / maps arrays passed by the caller",
+                                                       {"kind": "oracle", "ishape": ish, "coils": nc}))
+            A = mr.linop.Sense(mps, weights=w)
+            yw = k0 * w ** 0.5
+            for x in xs:
+                g = A.H(A(x) - yw) + 0.05 * x
+                if np.linalg.norm(g) > 2e-3 * (1 + np.linalg.norm(A.H(yw))):
+                    bad.setdefault("senserecon-weighted", ("weighted SenseRecon output is not a minimiser of sum w|FSx-y|^2/2 + lamda/2|x|^2 "
+                                                           "(normal-equation residual %.2e)" % np.linalg.norm(g),
+                                                           {"kind": "oracle", "ishape": ish, "coils": nc}))
+                    break
+        except Exception as e:
+            bad.setdefault("recon-exception", ("weighted SenseRecon raised %r" % e, {"kind": "impl-exception"}))
         # TV: two solvers must agree on the documented objective
         lam = 0.05
         objs = {}
